@@ -132,6 +132,11 @@ func init() {
 		}
 		sts := r2StmtStrings(c, fd)
 		fmt.Fprintf(&sb, "/-- top-level statements of `scionPacketProcessor.processEPIC`, in source order -/\ndef processEPICStmts : List String := %s\n", LeanStrList(sts))
+		vt, err := c.Func("pkg/experimental/epic", "", "VerifyTimestamp")
+		if err != nil {
+			return err
+		}
+		fmt.Fprintf(&sb, "/-- top-level statements of `VerifyTimestamp` (`if` reduced to its condition) -/\ndef verifyTimestampStmts : List String := %s\n", LeanStrList(r2StmtStrings(c, vt)))
 		sb.WriteString("end Scion.Gen.Epic\n")
 		return c.Emit("Epic.lean", sb.String())
 	})
@@ -298,6 +303,58 @@ func init() {
 			}
 			fmt.Fprintf(&sb, "/-- `slayers.%s` -/\ndef %s : Nat := %s\n", n, n, v)
 		}
+		rp, err := c.Func("router", "dataPlane", "runProcessor")
+		if err != nil {
+			return err
+		}
+		var loop *ast.ForStmt
+		for _, st := range rp.Body.List {
+			if f, ok := st.(*ast.ForStmt); ok {
+				loop = f
+			}
+		}
+		if loop == nil {
+			return fmt.Errorf("runProcessor: no for loop")
+		}
+		var cases []string
+		var after []string
+		seenSwitch := false
+		for _, st := range loop.Body.List {
+			sw, ok := st.(*ast.SwitchStmt)
+			if ok && c.Expr(sw.Tag) == "disp" {
+				seenSwitch = true
+				for _, cc := range sw.Body.List {
+					cl := cc.(*ast.CaseClause)
+					name := "default"
+					if cl.List != nil {
+						var ns []string
+						for _, x := range cl.List {
+							ns = append(ns, c.Expr(x))
+						}
+						name = strings.Join(ns, ",")
+					}
+					b := "false"
+					if r2EndsIteration(cl.Body) {
+						b = "true"
+					}
+					cases = append(cases, fmt.Sprintf("(%q, %s)", name, b))
+				}
+				continue
+			}
+			if seenSwitch {
+				ast.Inspect(st, func(n ast.Node) bool {
+					if ce, ok := n.(*ast.CallExpr); ok {
+						after = append(after, c.Expr(ce.Fun))
+					}
+					return true
+				})
+			}
+		}
+		if !seenSwitch {
+			return fmt.Errorf("runProcessor: no switch on disp")
+		}
+		fmt.Fprintf(&sb, "/-- the cases of `switch disp` in `dataPlane.runProcessor`, each with whether EVERY path through its body ends\n    the loop iteration (`continue`; a `select`/`switch`/`if-else` counts when all of its arms do) -/\ndef runProcessorCases : List (String × Bool) := [%s]\n", strings.Join(cases, ", "))
+		fmt.Fprintf(&sb, "/-- functions called in the loop body after that switch (the forwarding code) -/\ndef runProcessorAfterSwitch : List String := %s\n", LeanStrList(after))
 		sb.WriteString("end Scion.Gen.R2Bfd\n")
 		return c.Emit("R2Bfd.lean", sb.String())
 	})
@@ -391,4 +448,50 @@ func r2EvalInt(c *Ctx, e ast.Expr, pkgs map[string]string) (int64, error) {
 		}
 	}
 	return 0, fmt.Errorf("cannot evaluate %s", c.Expr(e))
+}
+
+// r2EndsIteration: every path through the statement list ends with `continue` (or return/panic).
+func r2EndsIteration(body []ast.Stmt) bool {
+	if len(body) == 0 {
+		return false
+	}
+	switch v := body[len(body)-1].(type) {
+	case *ast.BranchStmt:
+		return v.Tok == token.CONTINUE && v.Label == nil
+	case *ast.ReturnStmt:
+		return true
+	case *ast.BlockStmt:
+		return r2EndsIteration(v.List)
+	case *ast.IfStmt:
+		if v.Else == nil || !r2EndsIteration(v.Body.List) {
+			return false
+		}
+		switch e := v.Else.(type) {
+		case *ast.BlockStmt:
+			return r2EndsIteration(e.List)
+		case *ast.IfStmt:
+			return r2EndsIteration([]ast.Stmt{e})
+		}
+		return false
+	case *ast.SelectStmt:
+		for _, cc := range v.Body.List {
+			if !r2EndsIteration(cc.(*ast.CommClause).Body) {
+				return false
+			}
+		}
+		return len(v.Body.List) > 0
+	case *ast.SwitchStmt:
+		hasDefault := false
+		for _, cc := range v.Body.List {
+			cl := cc.(*ast.CaseClause)
+			if cl.List == nil {
+				hasDefault = true
+			}
+			if !r2EndsIteration(cl.Body) {
+				return false
+			}
+		}
+		return hasDefault
+	}
+	return false
 }
